@@ -233,3 +233,6 @@ def run(ctx):
     from .. import sparse as _sp15
 
     _sp15.mass_matrices(ctx)  # (tools/wiring.py) strong-form solves multiply by the inverse mass matrix of (range, dual) pairs
+    from .. import state as _state
+
+    _state.process_state(ctx)  # no result object keeps its per-call data in state shared between instances or calls
